@@ -180,14 +180,17 @@ var assumptions = []string{
 	"ranges of diagnostics produced later, by evaluation/decoding, are not asserted (json/structure.go documents the ones for JSON strings as approximate); only parse/lex diagnostics are",
 	"JSON syntax nodes are unexported: their ranges are checked as far as the public hcl API reaches them (JustAttributes, ExprList, ExprMap, MissingItemRange)",
 	"hclsyntax.Attributes / hclsyntax.Blocks (grouping nodes with a documented arbitrary range) are transparent for the child-inside-parent check; *AnonSymbolExpr (synthetic splat item placeholder located at the marker) is only required to lie inside the input",
-	"termination: a single input is given 30 s (measured normal cost is reported in extra); a slower one is reported as hang, nothing else is timing dependent",
+	"termination: a single input is given 30 s (measured normal cost is reported in extra: slowest observed case ~2 s under heavy machine load); a slower one is reported as hang, nothing else is timing dependent",
+	"inputs whose cost is high by design are kept out of the watchdog's way: (#\"/*\") * len(input) <= 2^27 (each unterminated block-comment opener makes the generated scanner run to the end of the input and backtrack: 64 KiB of \"/* \" lexes in ~19 s), and evaluation is skipped (parsing and range checks are not) when for/splat nesting exceeds 6 or a number has an exponent of 5+ digits (3^depth iterations / 100 MB strings by the semantics of the language)",
+	"the evaluation context holds strings, numbers, bools, lists, maps, sets, objects, tuples, null, unknown and dynamic values and a few cty stdlib functions plus try/can; no marked values (gocty, used by gohcl, does not support marks; Havoc never marks values)",
+	"nesting produced by the repeat mutation in (a) is capped at the depth bound of (b), 5000 (the native parser exhausts the 1 GB goroutine stack somewhere between 50 000 and 200 000 nested parentheses, the JSON parser between 100 000 and 1 000 000 brackets: beyond the bound the property names)",
 }
 
 func TestC17a(t *testing.T) {
 	tmPrefix = "a_"
 	core.Run(t, core.Spec[Case]{
 		Property: "C17", Sub: "a",
-		Rule: "inputs: random bytes (biased to scanner-relevant characters), grammar-generated native config/expression/template/traversal/JSON text, and the repo's own corpora (hclsyntax/fuzz, hclwrite/fuzz, json/fuzz, specsuite, profiles/*.yaotl), then 0-3 mutations out of flip/delete/dup/repeat/insert-token/truncate/bad-UTF-8/BOM/CRLF/splice; 12% of cases feed one syntax to another entry point; size <= 16 KiB quick / 256 KiB thorough. Entry points: hclsyntax.ParseConfig/ParseExpression/ParseTemplate/ParseTraversalAbs/LexConfig/LexExpression/LexTemplate, json.Parse/ParseExpression, hclwrite.ParseConfig. Oracle: no panic, returns within 30 s, token stream covers the input (ascending, no overlap, Bytes == src[range], gaps only space/tab in main mode and none in template modes, leading BOM, EOF at len, line numbers), every node/traversal/diagnostic range inside the input with Start<=End, children inside parents, and with no error diagnostic evaluation (nil/empty/populated context), JustAttributes, hcldec.Decode (derived permissive spec + fixed spec) and gohcl.DecodeBody (remain) do not panic. Non-trivial: the input got past the lexer with >=1 token other than EOF/Newline/Invalid/BadUTF8 (JSON: first non-blank byte can start a value). distinct = (entry point, generator class, first mutation, length bucket, has-errors)",
+		Rule: "inputs: random bytes (biased to scanner-relevant characters), grammar-generated native config/expression/template/traversal/JSON text, and the repo's own corpora (hclsyntax/fuzz, hclwrite/fuzz, json/fuzz, specsuite, profiles/*.yaotl), then 0-3 mutations out of flip/delete/dup/repeat/insert-token/truncate/bad-UTF-8/BOM/CRLF/splice; 12% of cases feed one syntax to another entry point; size <= 16 KiB quick / 256 KiB thorough. Entry points: hclsyntax.ParseConfig/ParseExpression/ParseTemplate/ParseTraversalAbs/LexConfig/LexExpression/LexTemplate, json.Parse/ParseExpression, hclwrite.ParseConfig. Oracle: no panic, returns within 30 s, token stream covers the input (ascending, no overlap, Bytes == src[range], gaps only space/tab in main mode and none in template modes, leading BOM, EOF at len; line numbers = 1 + preceding newlines for well-formed UTF-8 input), every node/traversal/diagnostic range inside the input with Start<=End, children inside parents, and with no error diagnostic evaluation (nil/empty/populated context), JustAttributes, hcldec.Decode (derived permissive spec + fixed spec) and gohcl.DecodeBody (remain) do not panic. Non-trivial: the input got past the lexer with >=1 token other than EOF/Newline/Invalid/BadUTF8 (JSON: first non-blank byte can start a value). distinct = (entry point, generator class, first mutation, length bucket, has-errors)",
 		Gen:   genCase, Check: check, Classify: classify,
 		Assumptions: assumptions,
 	})
